@@ -160,7 +160,11 @@ func (c limCfg) floor() int {
 func (c limCfg) ceiling(samples int) int {
 	switch c.algo {
 	case "aimd":
-		return c.initial + c.incr*samples
+		inc := c.incr
+		if inc <= 0 {
+			inc = 1 // the constructor replaces a non-positive increment
+		}
+		return c.initial + inc*samples
 	}
 	if c.initial > c.max {
 		return c.initial
@@ -282,6 +286,9 @@ func (li *limInst) alphabet(level int, withZero, withHuge bool) []sample {
 			}
 		}
 	}
+	if level < 0 {
+		add(sample{rtt: 0, inflight: 2*est + 1, drop: true}) // C15: a drop that carries no RTT (a drop-only window)
+	}
 	return out
 }
 
@@ -392,12 +399,14 @@ func limGrid(level int) []limCfg {
 		{algo: "aimd", initial: 10, backoff: 0.5, incr: 2},
 		{algo: "aimd", initial: 3, backoff: 1.0, incr: 1},
 		{algo: "aimd", initial: 11, backoff: 0.9, incr: 3}, // 11 x 0.9 = 9.9: the back-off truncates
+		{algo: "aimd", initial: 4, backoff: 0.5, incr: 0},  // no increment configured: the constructor's default applies
 		{algo: "vegas", initial: 4, max: 10, smoothing: 1.0, probe: 2},
 		{algo: "vegas", initial: 4, max: 10, smoothing: 0.2, probe: 30},
 		{algo: "vegas", initial: 12, max: 10, smoothing: 1.0, probe: 1},
 		{algo: "vegas", initial: 5, max: 8, smoothing: 0.5, probe: 4},
 		{algo: "gradient", initial: 4, min: 1, max: 10, smoothing: 1.0, queue: "fixed2", tol: 2.0, probe: 3},
 		{algo: "gradient", initial: 6, min: 2, max: 10, smoothing: 0.2, queue: "sqrt4", tol: 1.0, probe: -1},
+		{algo: "gradient", initial: 12, min: 10, max: 20, smoothing: 1.0, queue: "fixed2", tol: 1.0, probe: 4}, // minimum well above the queue allowance: after a probe the estimate climbs back from 2
 		{algo: "gradient2", initial: 4, min: 1, max: 10, smoothing: 1.0, queue: "fixed2", longWin: 3},
 		{algo: "gradient2", initial: 6, min: 2, max: 10, smoothing: 0.2, queue: "sqrt4", longWin: 10},
 	}
